@@ -176,6 +176,8 @@ pub struct BlockingHandle<BS: BlockingCmdTaskSender> {
 
 impl<BS: BlockingCmdTaskSender> BlockingHandle<BS> {
     fn new(inner: Arc<BlockingHandleInner<BS>>) -> Self {
+        #[cfg(undermoon_verif)]
+        crate::common::verif::sched_point("blocking::handle::start");
         inner
             .blocking_state
             .compare_and_apply(|blocking_count| blocking_count + 1, |term| term + 1);
@@ -189,12 +191,16 @@ impl<BS: BlockingCmdTaskSender> BlockingHandle<BS> {
 impl<BS: BlockingCmdTaskSender> Drop for BlockingHandle<BS> {
     fn drop(&mut self) {
         info!("blocking handle is dropped");
+        #[cfg(undermoon_verif)]
+        crate::common::verif::sched_point("blocking::handle::drop");
         let (prev_blocking_count, _prev_term) = self
             .inner
             .blocking_state
             .compare_and_apply(|blocking_count| blocking_count - 1, |term| term + 1);
         if prev_blocking_count == 1 {
             info!("migraition stop blocking");
+            #[cfg(undermoon_verif)]
+            crate::common::verif::sched_point("blocking::handle::drop::release");
             self.inner.release_all();
         }
     }
@@ -209,6 +215,8 @@ struct BlockingHandleInner<BS: BlockingCmdTaskSender> {
 impl<BS: BlockingCmdTaskSender> BlockingHandleInner<BS> {
     fn release_all(&self) {
         loop {
+            #[cfg(undermoon_verif)]
+            crate::common::verif::sched_point("blocking::release::try_recv");
             let cmd_task = match self.queue_receiver.try_recv() {
                 Ok(cmd_task) => cmd_task,
                 Err(err) => {
@@ -218,6 +226,8 @@ impl<BS: BlockingCmdTaskSender> BlockingHandleInner<BS> {
                     return;
                 }
             };
+            #[cfg(undermoon_verif)]
+            crate::common::verif::sched_point("blocking::release::redispatch");
             if let Err(err) = self.blocking_task_sender.send(cmd_task) {
                 error!(
                     "failed to send task when releasing blocking queue: {:?}",
@@ -280,7 +290,11 @@ where
         // Since CmdTaskSender::send has to be `&self`, we have to implement something similar ourselves.
         // Add `running_cmd` anyway to hold this "lock".
         // TODO: this counter increment (reader lock) might starve the waiting side (writer lock).
+        #[cfg(undermoon_verif)]
+        crate::common::verif::sched_point("blocking::send::counter_inc");
         let counter = RefAutoCounter::new(&self.running_cmd);
+        #[cfg(undermoon_verif)]
+        crate::common::verif::sched_point("blocking::send::load_state");
         let BlockingState { blocking, term } = self.get_blocking_state();
         if !blocking {
             let blocking = match cmd_blocking_hint {
@@ -298,6 +312,8 @@ where
                 BlockingHint::Blocking => true,
             };
             if !blocking {
+                #[cfg(undermoon_verif)]
+                crate::common::verif::sched_point("blocking::send::inner_send");
                 let counter_task = CounterTask::new(cmd_task, self.running_cmd.clone());
                 return self.inner_sender.send(counter_task).map_err(|err| {
                     err.map_task(|task| BlockingHintTask::new(task.into_inner(), cmd_blocking_hint))
@@ -310,8 +326,12 @@ where
                 cmd_blocking_hint,
             )));
         }
+        #[cfg(undermoon_verif)]
+        crate::common::verif::sched_point("blocking::send::counter_dec");
         drop(counter);
 
+        #[cfg(undermoon_verif)]
+        crate::common::verif::sched_point("blocking::send::enqueue");
         if let Err(err) = self.queue_sender.send(cmd_task) {
             let cmd_task = err.into_inner();
             cmd_task.set_resp_result(Ok(Resp::Error(
@@ -321,8 +341,12 @@ where
             return Err(SenderBackendError::Canceled);
         }
 
+        #[cfg(undermoon_verif)]
+        crate::common::verif::sched_point("blocking::send::recheck");
         let BlockingState { blocking, .. } = self.get_blocking_state();
         if !blocking {
+            #[cfg(undermoon_verif)]
+            crate::common::verif::sched_point("blocking::send::recheck_release");
             self.blocking_handle_inner.release_all();
         }
         Ok(())
@@ -337,6 +361,8 @@ where
     type Sender = BS;
 
     fn blocking_done(&self) -> bool {
+        #[cfg(undermoon_verif)]
+        crate::common::verif::sched_point("blocking::done::load");
         self.running_cmd.load(Ordering::SeqCst) == 0
     }
 
@@ -428,6 +454,8 @@ impl AutoCounter {
 impl Drop for AutoCounter {
     fn drop(&mut self) {
         // TODO: This order could be relaxed.
+        #[cfg(undermoon_verif)]
+        crate::common::verif::sched_point("blocking::counter::dec");
         self.0.fetch_sub(1, Ordering::SeqCst);
     }
 }
@@ -444,6 +472,8 @@ impl<'a> RefAutoCounter<'a> {
 impl<'a> Drop for RefAutoCounter<'a> {
     fn drop(&mut self) {
         // TODO: This order could be relaxed.
+        #[cfg(undermoon_verif)]
+        crate::common::verif::sched_point("blocking::counter::dec");
         self.0.fetch_sub(1, Ordering::SeqCst);
     }
 }
